@@ -168,6 +168,7 @@ fn gen_base(rng: &mut Rng) -> ConnScenario {
     };
     let intent = if rng.chance(1, 2) { 2 } else { 3 };
     let mut client = ClientSpec::base(rng, intent);
+    client.info = gen_info(rng);
     client.info_delay_ns = match rng.below(4) {
         0 => 0,
         1 => ms(rng.range(1, 2000)),
